@@ -16,7 +16,7 @@ use crate::typer::results::{
     StructPatElab,
 };
 use crate::{
-    env::{Constraint, GlobalTypeEnv, PackageTypeEnv},
+    env::{Constraint, GlobalTypeEnv, OperandClass, PackageTypeEnv},
     tast::{self},
     typer::Typer,
 };
@@ -2371,6 +2371,10 @@ impl Typer {
             }
             common_defs::UnaryOp::Neg => {
                 self.push_constraint(Constraint::TypeEqual(expr_ty.clone(), expr_ty.clone()));
+                self.push_constraint(Constraint::OperandDomain {
+                    op: OperandClass::Arithmetic,
+                    ty: expr_ty.clone(),
+                });
                 tast::Expr::EUnary {
                     op,
                     expr: Box::new(expr_tast),
@@ -2411,12 +2415,20 @@ impl Typer {
             common_defs::BinaryOp::Add => {
                 self.push_constraint(Constraint::TypeEqual(lhs_ty.clone(), ret_ty.clone()));
                 self.push_constraint(Constraint::TypeEqual(rhs_ty.clone(), ret_ty.clone()));
+                self.push_constraint(Constraint::OperandDomain {
+                    op: OperandClass::Additive,
+                    ty: lhs_ty.clone(),
+                });
             }
             common_defs::BinaryOp::Sub
             | common_defs::BinaryOp::Mul
             | common_defs::BinaryOp::Div => {
                 self.push_constraint(Constraint::TypeEqual(lhs_ty.clone(), ret_ty.clone()));
                 self.push_constraint(Constraint::TypeEqual(rhs_ty.clone(), ret_ty.clone()));
+                self.push_constraint(Constraint::OperandDomain {
+                    op: OperandClass::Arithmetic,
+                    ty: lhs_ty.clone(),
+                });
             }
             common_defs::BinaryOp::And | common_defs::BinaryOp::Or => {
                 self.push_constraint(Constraint::TypeEqual(lhs_ty.clone(), tast::Ty::TBool));
@@ -2430,6 +2442,18 @@ impl Typer {
             | common_defs::BinaryOp::NotEq => {
                 // Comparison operators: lhs and rhs must have same type (numeric types)
                 self.push_constraint(Constraint::TypeEqual(lhs_ty.clone(), rhs_ty.clone()));
+                let class = if matches!(
+                    op,
+                    common_defs::BinaryOp::Eq | common_defs::BinaryOp::NotEq
+                ) {
+                    OperandClass::Equality
+                } else {
+                    OperandClass::Ordered
+                };
+                self.push_constraint(Constraint::OperandDomain {
+                    op: class,
+                    ty: lhs_ty.clone(),
+                });
             }
         }
 
